@@ -81,3 +81,8 @@ Fixpoint go_trim_suffix (suf s : string) : string :=
        | EmptyString => EmptyString
        | String c s' => String c (go_trim_suffix suf s')
        end.
+
+(* xs[lo:hi] on a slice: None unless 0 <= lo <= hi <= len(xs) (capacity is not modelled: hi <= len) *)
+Definition list_slice {A : Type} (xs : list A) (lo hi : Z) : option (list A) :=
+  if ((0 <=? lo) && (lo <=? hi) && (hi <=? Z.of_nat (List.length xs)))%Z
+  then Some (firstn (Z.to_nat (hi - lo)) (skipn (Z.to_nat lo) xs)) else None.
